@@ -30,6 +30,30 @@ type c09Obj struct {
 type c09Case struct {
 	A c09Obj `json:"a"`
 	B c09Obj `json:"b"`
+	// Reparse: operand A / B is rendered with JSON() and parsed again with child and geometry indexes forced
+	ReparseA bool `json:"reparse_a,omitempty"`
+	ReparseB bool `json:"reparse_b,omitempty"`
+}
+
+var c09IndexedOpts = &geojson.ParseOptions{IndexChildren: 1, IndexGeometry: 1, IndexGeometryKind: geometry.RTree}
+
+func c09Reparse(o geojson.Object) geojson.Object {
+	if p, err := geojson.Parse(o.JSON(), c09IndexedOpts); err == nil {
+		return p
+	}
+	return o
+}
+
+// directCirclePoint: a Circle as direct operand against a point-like object that is direct or wrapped in one
+// Feature.  There the library uses the great-circle test, so the 64-gon sliver explains nothing.
+func directCirclePoint(x, y *c09Obj) bool {
+	if x.Kind != "Circle" {
+		return false
+	}
+	if y.Kind == "Point" || y.Kind == "SimplePoint" {
+		return true
+	}
+	return y.Kind == "Feature" && (y.Children[0].Kind == "Point" || y.Children[0].Kind == "SimplePoint")
 }
 
 func (o *c09Obj) build() geojson.Object {
@@ -193,12 +217,21 @@ func leafGeom(o geojson.Object) geometry.Geometry {
 
 func c09Check(c c09Case) fw.Outcome {
 	a, b := c.A.build(), c.B.build()
+	if c.ReparseA {
+		a = c09Reparse(a)
+	}
+	if c.ReparseB {
+		b = c09Reparse(b)
+	}
 	label := c.A.Kind + "x" + c.B.Kind
 	withCircle := c.A.hasCircle() || c.B.hasCircle()
 	if withCircle && (nearRim(&c.A, &c.B) || nearRim(&c.B, &c.A)) {
 		return fw.Outcome{Label: label + "/point on a circle's rim", Skip: true}
 	}
 	known := func() string {
+		if directCirclePoint(&c.A, &c.B) || directCirclePoint(&c.B, &c.A) {
+			return ""
+		}
 		if withCircle && kf.Enabled("C09", "KF-CIRCLE-APPROX") && (circleSliver(&c.A, &c.B) || circleSliver(&c.B, &c.A)) {
 			return "KF-CIRCLE-APPROX"
 		}
@@ -372,7 +405,7 @@ func c09Gen(t *rapid.T) c09Case {
 	cell := rapid.IntRange(0, 143).Draw(t, "cell")
 	a := genC09Obj(t, c09Kinds[cell/12], 2, nil)
 	b := genC09Obj(t, c09Kinds[cell%12], 2, a.leafShapes(nil))
-	return c09Case{A: a, B: b}
+	return c09Case{A: a, B: b, ReparseA: rapid.IntRange(0, 2).Draw(t, "reparsea") == 0, ReparseB: rapid.IntRange(0, 2).Draw(t, "reparseb") == 0}
 }
 
 func c09Subs() []fw.Sub {
